@@ -109,6 +109,13 @@ Worlds ==
                     f1 |-> File(<<>>, <<Comp("c", "second", "11", NoneS, NoneS, <<"k">>), Comp("k", "second", "12", NoneS, NoneS, <<>>)>>, <<Conn("c", "v", "k", "v")>>)],
      compNeedsImportedUnits |-> [root |-> File(<<>>, <<CImp("ic", "f1", "c")>>, <<>>), f1 |-> File(<<UImp("uu", "f2", "v")>>, <<Comp("c", "uu", "11", NoneS, NoneS, <<>>)>>, <<>>),
                                  f2 |-> File(<<URef("v", "gram", "milli")>>, <<>>, <<>>)],
+     \* the imported component is a pure container: only its encapsulated child needs the units of the library
+     container |-> [root |-> File(<<>>, <<CImp("ic", "f1", "c")>>, <<>>),
+                    f1 |-> File(<<URef("mV", "volt", "milli")>>, <<Comp("c", NoneS, "11", NoneS, NoneS, <<"k">>), Comp("k", "mV", "12", NoneS, NoneS, <<>>)>>, <<>>)],
+     \* three files, three meanings of the units name cm: the encapsulated import keeps the meaning of the file it comes from
+     importedChildClash |-> [root |-> File(<<URef("cm", "metre", "milli")>>, <<CImp("ic", "f1", "c"), MainUses("cm")>>, <<>>),
+                             f1 |-> File(<<URef("cm", "metre", "centi")>>, <<Comp("c", "cm", "11", NoneS, NoneS, <<"k">>), CImp("k", "f2", "d")>>, <<Conn("c", "v", "k", "v")>>),
+                             f2 |-> File(<<URef("cm", "metre", "kilo")>>, <<Comp("d", "cm", "22", NoneS, NoneS, <<>>)>>, <<>>)],
      importedChild |-> [root |-> File(<<>>, <<CImp("ic", "f1", "c")>>, <<>>), f1 |-> File(<<>>, <<Comp("c", "metre", "11", NoneS, NoneS, <<"k">>), CImp("k", "f2", "d")>>, <<Conn("c", "v", "k", "v")>>),
                         f2 |-> File(<<URef("cm", "metre", "centi")>>, <<Comp("d", "cm", "22", NoneS, NoneS, <<>>)>>, <<>>)]]
 =============================================================================
